@@ -288,7 +288,7 @@ def oracle(p):
         # number of samples (the rounded size) consistently
         try:
             gf = None
-            if any(n % 2 == 1 and n >= 5 for n in gd["size"]):
+            if any(n % 2 == 1 for n in gd["size"]) and all(n >= 4 for n in gd["size"]):   # every axis keeps >= 2 samples (n - 1 != 0)
                 gf = g.downsample()
             elif rng.random() < 0.3:
                 gf = Grid(size=[n - rng.choice([0.25, 0.5, 0.75]) for n in gd["size"]], spacing=gd["spacing"], center=gd["center"],
